@@ -9,6 +9,8 @@ pub mod native_crypto;
 include!("native_family.rs");
 pub fn native_registry() -> Vec<(&'static str, fn(&mut crate::src::EnumSrc))> {
     let mut v = native_family_registry();
+    #[cfg(feature = "xnative")]
+    v.extend(native_family_registry_x());
     v.extend(native_misc_registry());
     v
 }
